@@ -395,7 +395,19 @@ F8scripts ==
                <<Text(<<P(Mem(Id("x"), "n")), S("/"), P(Mem(Id("z"), "n"))>>),
                  Elem("v", <<Attr("bind", "tap", EV(Mem(Id("x"), "f"))), Attr("plain", "p", EV(Call(Mem(Id("z"), "f"), <<EA>>)))>>, <<>>)>>) >> :
         r \in ScriptRefsTo(MainSegs, "u"), r2 \in {Ref(MainSegs, <<"..", "w">>, FALSE, ".wxs"), Ref(MainSegs, <<".", "w">>, TRUE, "")} }
-F8 == F8imports \cup F8includes \cup F8branches \cup F8scripts
+(* definitions WITHOUT children: a template that renders nothing is a definition all the same - it shadows an imported
+   template of its name when it is local, and an earlier import's when it comes from a later import *)
+DefE(name) == [n |-> name, ch |-> <<>>]
+F8empty ==
+    { << GFile(MainSegs, irefs, <<>>, mdefs, UseT),
+         GFile(<<"d", "b">>, <<>>, <<>>, bdefs, <<Text(<<S("B")>>)>>),
+         GFile(<<"d", "c">>, <<>>, <<>>, cdefs, <<Text(<<S("C")>>)>>) >> :
+        irefs \in { <<Ref(MainSegs, <<"b">>, FALSE, "")>>, <<Ref(MainSegs, <<"b">>, FALSE, ""), Ref(MainSegs, <<"d", "c">>, TRUE, "")>>,
+                    <<Ref(MainSegs, <<"c">>, FALSE, ".wxml"), Ref(MainSegs, <<"b">>, FALSE, "")>> },
+        mdefs \in { <<>>, <<DefE("t")>>, <<DefE("t"), DefM("u", "main")>> },
+        bdefs \in { <<DefM("t", "b"), DefM("u", "b")>>, <<DefE("t"), DefM("u", "b")>> },
+        cdefs \in { <<DefM("t", "c"), DefE("u")>>, <<DefE("t"), DefM("u", "c")>> } }
+F8 == F8imports \cup F8includes \cup F8branches \cup F8scripts \cup F8empty
 
 -----------------------------------------------------------------------------
 Cases == CASE Family = "F8" -> F8 [] Family = "F7" -> F7 [] Family = "F1" -> F1 [] Family = "F2" -> F2 [] Family = "F3" -> F3 [] Family = "F4" -> F4
